@@ -724,6 +724,88 @@ def enumerate_scenarios(kind, rng, full):
     return out
 
 
+# ---- the connector's own parameters
+SEQS = [None, 0, 1, 5, 1 << 31, 10 ** 19]          # absent (the connector's default), "whatever comes next", the start, a position, large
+SIDS = [('s', 'sess'), ('', 'anysess'), ('ABCDEFGHIJ', 'ABCDEFGHIJ'), ('s', 's'), ('day1', 'day2')]
+CHBS = [HB, 0.002, 0.007]
+SHBS = [SERVER_HB, 0.5, 2.5]                        # (well above every observation window: a leftover session must not be hidden by
+#                                                     its own remote monitor closing it for silence)
+
+
+def accepted_at(req):
+    """the sequence numbers an acceptance may state for a requested one: the same, and different ones (the server no longer has the
+    position / starts over / is far ahead / states 0)"""
+    if req == 0:
+        return [1, 7, 1 << 40]
+    return [req, req + 1, req + 2, 1 if req > 1 else 3, 0, req * 3 + 11]
+
+
+def other_params(rng, kind):
+    """a draw of every connector parameter except the sequence"""
+    d = {}
+    sid, acc_sid = rng.choice(SIDS)
+    if (sid, acc_sid) != ('s', 'sess'):
+        d['sid'], d['acc_sid'] = sid, acc_sid
+    if rng.random() < 0.5:
+        d['chb'] = rng.choice(CHBS)
+    if rng.random() < 0.5:
+        d['shb'] = rng.choice(SHBS)
+    if rng.random() < 0.3:
+        d['on_close'] = False
+    if rng.random() < 0.3:
+        d['user'], d['pw'] = rng.choice([('user1', 'secret'), ('', ''), ('abcdef', 'abcdefghij')])
+    if rng.random() < 0.2:
+        d['ctimeout'] = rng.choice([0.01, 0.2])
+    if kind in ('itch', 'ouch', 'sqf') and rng.random() < 0.4:
+        d['factory'] = False
+    if kind == 'soup' and rng.random() < 0.4:
+        d['soup_factory'] = True
+    if kind == 'fix':
+        d['fixver'] = rng.choice([42, 44, 50])
+        d.pop('sid', None), d.pop('acc_sid', None), d.pop('pw', None), d.pop('ctimeout', None)
+    return d
+
+
+def param_scenarios(kind, rng, thorough):
+    """requested sequence x sequence stated by the acceptance x stream shape, every other parameter drawn per scenario; then the same
+    parameters under the other replies, a disconnect, a cancellation in the hand-over window"""
+    out = []
+    base = {'kind': kind, 'reply': ['accept'], 'tail': [], 'cuts': [], 'gaps': [0]}
+    seqs = SEQS if kind != 'fix' else [None, 1, 5, 1 << 31]
+    for seq in seqs:
+        req = seq if seq is not None else (1 if kind == 'soup' else 0)
+        for acc in (accepted_at(req) if kind != 'fix' else [1, req, req + 2]):
+            b = dict(base, acc_seq=acc)
+            if seq is not None:
+                b['seq'] = seq
+            n = len(stream_of(dict(b, mode='pull'))[0])
+            shapes = [{}, {'cuts': [rng.randint(1, n - 1)], 'gaps': [-1]}, {'tail': [1, 2]}, {'tail': [3], 'cuts': [n], 'gaps': [rng.choice([0, 1, -1])]}]
+            for shape in shapes:
+                out.append(dict(b, mode=rng.choice(['callback', 'pull']), **shape, **other_params(rng, kind)))
+            # the acceptance, then the peer disconnects / the caller gives up while it is handed to login()
+            out.append(dict(b, mode='callback', eof=n, eof_gap=-1, eof_turns=rng.randint(0, 5), **other_params(rng, kind)))
+            out.append(dict(b, mode='callback', cancel=['after', 1, rng.randint(0, 5)], **other_params(rng, kind)))
+        for rep_ in (['reject', 'A'], ['reject', 'S'], ['debug'], ['seq'], ['eos'], ['bad', 3]):
+            b = dict(base, reply=rep_, mode=rng.choice(['callback', 'pull']))
+            if seq is not None:
+                b['seq'] = seq
+            out.append(dict(b, **other_params(rng, kind)))
+        b = dict(base, mode='callback', **({'seq': seq} if seq is not None else {}))
+        out.append(dict(b, eof=rng.randint(0, 20), eof_gap=-1, **other_params(rng, kind)))
+        out.append(dict(b, reply=['none'], cancel=['before', rng.randint(0, 3)], **other_params(rng, kind)))
+        out.append(dict(b, reply=['none'], cancel=['timeout', rng.randint(1, 8)], **other_params(rng, kind)))
+        out.append(dict(b, connect='refuse', reply=['none'], **other_params(rng, kind)))
+    # the connector's default heartbeat intervals (10 s: a returned session costs 25 virtual seconds of reader polls — thorough tier)
+    for seq in ([5] if kind != 'fix' else [None]):
+        b = dict(base, mode='callback', **({'seq': seq} if seq is not None else {}))
+        for rep_, acc in ((['reject', 'A'], 1), (['accept'], 7), (['accept'], 5)):
+            if rep_[0] == 'accept' and not thorough:
+                continue
+            out.append(dict(b, reply=rep_, acc_seq=acc, chb=None, shb=40.0))
+            out.append(dict(b, reply=rep_, acc_seq=acc, shb=None))
+    return out
+
+
 def random_scenario(rng, kinds):
     kind = rng.choice(kinds)
     sc = {'kind': kind, 'mode': rng.choice(['callback', 'pull']), 'reply': rng.choice(REPLIES + [['accept']] * 6 + [['hb'], ['none']]),
@@ -731,6 +813,14 @@ def random_scenario(rng, kinds):
           'delay': rng.choice([0, 0, 1])}
     if kind in ('itch', 'ouch', 'sqf') and rng.random() < 0.2:
         sc['factory'] = False
+    if rng.random() < 0.5:
+        # the connector's own parameters: requested sequence, the one the acceptance states, session names, intervals, callbacks
+        sc.update(other_params(rng, kind))
+        seq = rng.choice(SEQS + [rng.randint(2, 10 ** 6)]) if kind != 'fix' else rng.choice([None, 1, rng.randint(2, 10 ** 6)])
+        if seq is not None:
+            sc['seq'] = seq
+        req = seq if seq is not None else (1 if kind == 'soup' else 0)
+        sc['acc_seq'] = rng.choice(accepted_at(req) + [req if req else 1] * 3)
     n = len(stream_of(sc)[1])
     sc['cuts'] = sorted(set(rng.randint(1, max(1, n)) for _ in range(rng.choice([0, 1, 2, 4]))))
     c = rng.random()
@@ -754,11 +844,17 @@ def shrink(sc, what):
     """drop scenario features while the same oracle failure persists"""
     key = what[:40]
     cur = dict(sc)
-    for field, val in (('tail', []), ('cuts', []), ('gaps', [0]), ('delay', 0), ('eof_turns', 0), ('eof_gap', 0), ('mode', 'callback')):
-        if cur.get(field) in (None, val):
+    for field, val in (('tail', []), ('cuts', []), ('gaps', [0]), ('delay', 0), ('eof_turns', 0), ('eof_gap', 0), ('mode', 'callback'),
+                       ('user', _ABSENT), ('pw', _ABSENT), ('sid', _ABSENT), ('acc_sid', _ABSENT), ('chb', _ABSENT), ('shb', _ABSENT),
+                       ('on_close', _ABSENT), ('ctimeout', _ABSENT), ('factory', _ABSENT), ('soup_factory', _ABSENT), ('fixver', _ABSENT),
+                       ('acc_seq', _ABSENT), ('seq', _ABSENT), ('seq', 5), ('acc_seq', 7)):
+        if (field not in cur) if val is _ABSENT else (cur.get(field) in (None, val)):
             continue
         cand = dict(cur)
-        cand[field] = val
+        if val is _ABSENT:
+            del cand[field]
+        else:
+            cand[field] = val
         try:
             if any(x[:40] == key for x in oracle(cand, run_attempt(cand))):
                 cur = cand
@@ -783,6 +879,9 @@ def run_connectors(ctx):
         # (the hand-over windows — disconnect / cancellation a few loop turns after the reply — are never sampled away)
         cases = [sc for i, sc in enumerate(cases)
                  if sc['kind'] == pick or i % 3 == ctx.seed % 3 or sc.get('eof_turns') or (sc.get('cancel') or [''])[0] == 'after']
+    # the connector's own parameters (requested sequence x accepted sequence x ...): small, never sampled away
+    for k in kinds:
+        cases.extend(param_scenarios(k, random.Random(rng.random()), thorough=not quick))
     n_rand = 300 if quick else 6000
     for _ in range(n_rand):
         cases.append(random_scenario(random.Random(rng.random()), kinds))
@@ -802,6 +901,15 @@ def run_connectors(ctx):
             ctx.count('connector:eof')
         if sc.get('cancel'):
             ctx.count('connector-cancel:' + sc['cancel'][0])
+        if 'seq' in sc or 'acc_seq' in sc:
+            pp = P(sc)
+            ctx.count('connector-seq:' + ('default' if pp['seq'] is None else 'zero' if pp['seq'] == 0 else 'given')
+                      + ('/accepted-elsewhere' if seq_mismatch(sc) else '/accepted-there'))
+        for key in ('sid', 'chb', 'shb', 'on_close', 'soup_factory', 'user', 'ctimeout', 'fixver'):
+            if key in sc:
+                ctx.count('connector-param:' + key)
+        if sc.get('factory') is False:
+            ctx.count('connector-param:default-session-class')
         v = oracle(sc, out)
         if v:
             n_bad += 1
@@ -810,7 +918,10 @@ def run_connectors(ctx):
     ctx.cov['connector_scenarios'] = len(cases)
     ctx.notes.append('connectors (soup/fix/itch/ouch/sqf/asn1 connect_async through a replaced create_connection): reply split at every byte '
                      'offset, reply followed at once by data, disconnect after every byte offset, cancellation before the reply and at the '
-                     'reader poll after it + 0..5 turns, wait_for timeouts; property oracle only (the model tie is the soup step-log replay)'
+                     'reader poll after it + 0..5 turns, wait_for timeouts; the connector\'s own parameters: requested sequence (default, 0, 1, 5, '
+                     'large) x sequence stated by the acceptance (equal / different) x session names x heartbeat intervals x callbacks x '
+                     'session_factory / default class; the leftovers of every failed attempt inspected; '
+                     'property oracle only (the model tie is the soup step-log replay)'
                      + ('' if asn1_available() else ' — asn1tools unavailable: ASN.1 connector skipped'))
 
 
